@@ -132,7 +132,7 @@ def type_of(text):
     return u if u in L.TYPES else None
 
 
-KEY_OK = re.compile(u"^[A-Za-z_\u0080-\U0010ffff][A-Za-z0-9_\u0080-\U0010ffff-]*$")
+KEY_OK = re.compile(u"^(?:[A-Za-z_\u0080-\U0010ffff]|\\\\.)(?:[A-Za-z0-9_ \u0080-\U0010ffff-]|\\\\.)*(?<! )$|^(?:[A-Za-z_\u0080-\U0010ffff]|\\\\.)(?:[A-Za-z0-9_ \u0080-\U0010ffff-]|\\\\.)*\\\\ $", re.S)
 
 
 def vline(first):
